@@ -26,7 +26,9 @@ RULE = ('one request against one AuthTktCookieHelper configuration: a cookie val
         'equal to the documented default OMITTED in 45 % of the cases, integer arguments as int / decimal str / float, the '
         'secret as str or UTF-8 bytes, tokens as tuple / list / one-shot generator / iterator, remember() user ids also of '
         'types outside the encoder table (bool, None, float, tuple, str / int / bytes SUBCLASSES); through the policy its '
-        'unauthenticated_userid on a fresh request is a further observation; non-trivial = the request carries a cookie that reaches the digest comparison (fields parse) or the '
+        'unauthenticated_userid on a fresh request is a further observation; in 14 % of the single-helper cases the application '
+        'registers response callbacks of its own that call forget() / remember() while the callbacks run (before or after '
+        'identify registered its reissue callback) and the ORDER of the Set-Cookie headers is compared; non-trivial = the request carries a cookie that reaches the digest comparison (fields parse) or the '
         'sequence issues a ticket; distinct by full case')
 ASSUMPTIONS = [
     'hashlib is an oracle: H(alg, bytes) -> hexdigest and digest_size come from hashlib itself, per case, through '
@@ -76,7 +78,12 @@ LEVEL_TEXT = ('Machine-checked theorems for every cookie string, clock value (wh
               'same typed user id and tokens); construction is inside the model (C09_construct_is_model: the helper a caller '
               'gets from either constructor has exactly the configuration asked for, omitted keywords = documented defaults); '
               'the policy wrapper obeys the digest law and never raises on unsigned cookies (C09_policy_accept_implies_digest, '
-              'C09_policy_total).  See harness/c09/NOTES.md.')
+              'C09_policy_total).  Sixth round: the identity of every accepted cookie is well formed '
+              '(C09_accepted_identity_wellformed, so C09_reissued_ticket_valid_any needs no premise on it); unquote(quote(s)) = s '
+              'and the ticket round trip for every scalar user-id text (C09_unquote_quote_scalar, C09_ticket_roundtrip_scalar); '
+              'no valid token contains , or ! and the token field splits back (C09_valid_token_no_separator, '
+              'C09_tokens_split_back, over the regenerated VALID_TOKEN classes); forget / remember from application response '
+              'callbacks: its headers are the last on the response (C09_explicit_callback_is_final).  See harness/c09/NOTES.md.')
 LEVEL_NOTE = ('Trusted: Coq kernel; the translator\'s primitive table and control-flow rules (anything outside subset / table is '
               'a broken tie, never a guess); Python harness; hashlib/WebOb/Unicode-database behaviour taken as oracles; pins for '
               'the few untranslated functions.  Premises visible in theorem statements: length (H a x) = digest length, H output '
@@ -294,7 +301,25 @@ def run_impl(case):
     outs, fed = [], []
     clock = _impl['clock']
     for op in case['ops']:
-        second = op[0] >= 3
+        if op[0] in (6, 7):
+            # the application registers a response callback that will forget / remember (and put the headers on the response)
+            def app_cb(request, response, op=op):
+                try:
+                    if op[0] == 6:
+                        hs = (pol or h).forget(request)
+                    else:
+                        kw = {'tokens': _toks(case.get('tokform'), op[3])}
+                        if op[2] is not None:
+                            kw['max_age'] = _num(case.get('numform'), op[2])
+                        hs = (pol or h).remember(request, _py_uval(op[1]), **kw)
+                except Exception:
+                    return
+                for k, v in hs:
+                    response.headerlist.append((k, v))
+            req.add_response_callback(app_cb)
+            outs.append([4])
+            continue
+        second = 3 <= op[0] <= 5
         hh = h2 if second else h
         kind = op[0] % 3
         clock.reads, clock.ticking = 0, bool(rq.get('tick'))
@@ -412,7 +437,7 @@ def _base_wire(case, htab):
         sec_cookie = rq['cookie'] if c2['cookie_name'] == cfg['cookie_name'] else case['second']['cookie']
         sec = [_cfg_wire(c2), _opt(sec_cookie)]
     dt = [[a, hashlib.new(a).digest_size] for a in sorted(algs)]
-    ops = [[op[0]] if op[0] % 3 != 1 else [op[0], _wire_uarg(op[1]), _opt(op[2]), list(op[3])] for op in case['ops']]
+    ops = [[op[0]] if len(op) == 1 else [op[0], _wire_uarg(op[1]), _opt(op[2]), list(op[3])] for op in case['ops']]
     omit = [bool(x) for x in (case.get('omit') or [False] * len(G.OMIT_FIELDS))]
     return [_cfg_wire(cfg), [_opt(rq['cookie']), rq['ip'], _host_domain(rq['host']), rq['now'], bool(rq.get('half')), bool(rq.get('tick'))], ops, org,
             [dt, htab, _uni_table((rq['cookie'] or '') + (sec_cookie or ''))], sec,
@@ -519,7 +544,7 @@ def from_wire(case, raw):
     oc, outs, resp, fb = model
     outs = [[o[0], [_fix_ck(c) for c in o[1]]] if o[0] == 2 else o for o in outs]
     resp = [_fix_ck(c) for c in resp]
-    spec = [spec[0], spec[1], [_fix_ck(c) for c in spec[2]], spec[3]]
+    spec = [spec[0], spec[1], [_fix_ck(c) for c in spec[2]], spec[3], [[_fix_ck(c) for c in f] for f in spec[4]]]
     return {'model': [oc, outs, resp, fb], 'spec': spec}
 
 
@@ -562,9 +587,10 @@ def _problems(case, obs, spec):
     bad = []
     if not isinstance(obs, list) or len(obs) != 4 or (obs and obs[0] == 'HARNESS-EXC'):
         return [('harness', obs)]
-    doks, expect, sresp, sattrs = spec
+    doks, expect, sresp, sattrs, final = spec
     oc, outs, resp, fb = obs
-    multi = any(op[0] >= 3 for op in case['ops'])       # a second helper was consulted for this request
+    multi = any(3 <= op[0] <= 5 for op in case['ops'])       # a second helper was consulted for this request
+    regs = any(op[0] in (6, 7) for op in case['ops'])     # the application registered response callbacks of its own
     tick = 1 if case['req'].get('tick') else 0
     for o in outs:
         if o and o[0] == 'POLICY-DELEGATION':
@@ -586,7 +612,7 @@ def _problems(case, obs, spec):
         if o[0] != 0:
             continue
         r = o[1]
-        dok = doks[1 if op[0] >= 3 else 0]      # each helper answers for ITS secret / algorithm / address
+        dok = doks[1 if 3 <= op[0] <= 5 else 0]      # each helper answers for ITS secret / algorithm / address
         if op[0] < 3:
             ids.append(r)
         if r == [2] and not dok:      # a validly signed cookie with foreign contents is outside the claim
@@ -613,6 +639,12 @@ def _problems(case, obs, spec):
         bad.append(('callback-raises', resp))
     elif multi:
         return bad        # shared request flags of two helpers: the reissue / attribute clauses are stated for one helper
+    elif regs:
+        # application callbacks: when the one registered last forgets (or re-remembers) the user, its headers are the last
+        # ones on the response (C09_explicit_callback_is_final); the rest is compared with the model only
+        if final and resp[len(resp) - len(final[0]):] != final[0]:
+            bad.append(('forget-or-remember-callback-is-final', [resp, final[0]]))
+        return bad
     elif resp != sresp:
         bad.append(('reissue', [resp, sresp]))
     # issued cookies: attributes, and they identify as what was remembered
@@ -664,7 +696,7 @@ def classify(case, obs, spec):
     clauses = sorted(set(p[0] for p in pr))
     if clauses == ['never-raises'] and _nonascii_digest(case):
         return 'C09-nonascii-digest-typeerror'
-    if clauses and set(clauses) <= {'reissue'} and any(op[0] == 1 for op in case['ops']) and not any(op[0] >= 3 for op in case['ops']):
+    if clauses and set(clauses) <= {'reissue'} and any(op[0] == 1 for op in case['ops']) and not any(op[0] >= 3 for op in case['ops']):  # (codes 3..7)
         ops = case['ops']
         first_id = min((i for i, op in enumerate(ops) if op[0] == 0), default=None)
         if first_id is not None and any(op[0] == 1 for op in ops[:first_id]) and not any(op[0] == 2 for op in ops) \
@@ -721,10 +753,13 @@ def kinds(case, obs):
         ks.append('secret-as-bytes')
     if case.get('numform') in ('str', 'float'):
         ks.append('int-arguments-as:' + case['numform'])
-    if case.get('tokform') and any(op[0] % 3 == 1 for op in case['ops']):
+    if case.get('tokform') and any(len(op) == 4 for op in case['ops']):
         ks.append('tokens-as:' + case['tokform'])
+    if any(op[0] in (6, 7) for op in case['ops']):
+        ks.append('app-response-callback:' + '+'.join(sorted(set({6: 'forget', 7: 'remember'}[op[0]] for op in case['ops']
+                                                                  if op[0] in (6, 7)))))
     for op in case['ops']:
-        if op[0] % 3 == 1 and op[1][0] == 3:
+        if len(op) == 4 and op[1][0] == 3:
             ks.append('userid-other-type:' + op[1][1])
     if case['cfg']['include_ip']:
         ks.append('ip:' + ('v6' if ':' in case['req']['ip'] else 'v4'))
@@ -759,7 +794,7 @@ def shrinks(case):
             yield w(cfg=dict(case['cfg'], **{k: dv}))
     if case['req'].get('tick'):
         yield w(req=dict(case['req'], tick=False))
-    if case.get('second') and not any(op[0] >= 3 for op in ops):
+    if case.get('second') and not any(3 <= op[0] <= 5 for op in ops):
         yield w(second=None)
     if case.get('via_policy'):
         yield w(via_policy=False)
